@@ -66,6 +66,8 @@ where
         })
         .unwrap();
 
+    #[cfg(feature = "verif-hooks")]
+    crate::verif_hooks::probe(crate::verif_hooks::site::TASK_CANCEL_TOKEN_AFTER_UPDATE, ptr as usize);
     if runnable_exists(state) {
         // The task is in the `Wind-down` phase so the cancellation is now
         // the responsibility of the current `Runnable`.
